@@ -189,6 +189,12 @@ def session {σ} (api : Api σ) : σ → List Req → List Outcome × σ × Opti
       let (os, st'', ex) := session api c.1 rs
       (c.2.2 :: os, st'', ex)
 
+/-- the byte streams: `bss` are the encodings of `rs`, message by message -/
+def Encoded : List Req → List Bytes → Prop
+  | [], [] => True
+  | r :: rs, b :: bs => dumps r.wire = .ok b ∧ Encoded rs bs
+  | _, _ => False
+
 /-! ### the reference: the same calls made in-process -/
 
 /-- the in-process call with the arguments as they arrive (tuples as lists) -/
